@@ -20,10 +20,10 @@ macro_rules! classes {
     )*};
 }
 
-/// token harnesses common to every version; A = assertion length used (0 for v1/v2)
+/// local-token harnesses common to every version; A = assertion length used (0 for v1/v2)
 #[macro_export]
-macro_rules! instantiate_tokens {
-    (V = $v:ty, NONCE = $nonce:expr, TAG = $tag:expr, SIG = $sig:expr, A = $a:expr, KS = $ks:expr, ARM = $arm:expr, DRAWS = $draws:expr) => {
+macro_rules! instantiate_local {
+    (V = $v:ty, NONCE = $nonce:expr, TAG = $tag:expr, A = $a:expr, KS = $ks:expr, ARM = $arm:expr, DRAWS = $draws:expr) => {
         // C01 — local
         $crate::h!(local_roundtrip_m0_f0_a0, local_roundtrip::<$v>(0, 0, 0, $nonce + $tag));
         $crate::h!(local_roundtrip_m3_f2, local_roundtrip::<$v>(3, 2, $a, $nonce + $tag));
@@ -44,8 +44,11 @@ macro_rules! instantiate_tokens {
         $crate::h!(local_unseal_arbitrary_below, local_unseal_arbitrary::<$v, { $nonce + $tag - 1 }>());
         $crate::h!(local_unseal_arbitrary_min, local_unseal_arbitrary::<$v, { $nonce + $tag }>());
         $crate::h!(local_unseal_arbitrary_above, local_unseal_arbitrary::<$v, { $nonce + $tag + 2 }>());
-
-        // ---- public
+    };
+}
+#[macro_export]
+macro_rules! instantiate_public {
+    (V = $v:ty, SIG = $sig:expr, A = $a:expr) => {
         $crate::h!(public_roundtrip_m0_f0_a0, public_roundtrip::<$v>(0, 0, 0, $sig));
         $crate::h!(public_roundtrip_m3_f2, public_roundtrip::<$v>(3, 2, $a, $sig));
         $crate::h!(public_tamper_payload_bit_m2, public_tamper_payload_bit::<$v>(2, 1, 0));
@@ -58,6 +61,13 @@ macro_rules! instantiate_tokens {
         $crate::h!(public_unseal_arbitrary_n0, public_unseal_arbitrary::<$v, 0>());
         $crate::h!(public_unseal_arbitrary_below, public_unseal_arbitrary::<$v, { $sig - 1 }>());
         $crate::h!(public_unseal_arbitrary_above, public_unseal_arbitrary::<$v, { $sig + 1 }>());
+    };
+}
+#[macro_export]
+macro_rules! instantiate_tokens {
+    (V = $v:ty, NONCE = $nonce:expr, TAG = $tag:expr, SIG = $sig:expr, A = $a:expr, KS = $ks:expr, ARM = $arm:expr, DRAWS = $draws:expr) => {
+        $crate::instantiate_local!(V = $v, NONCE = $nonce, TAG = $tag, A = $a, KS = $ks, ARM = $arm, DRAWS = $draws);
+        $crate::instantiate_public!(V = $v, SIG = $sig, A = $a);
     };
 }
 
@@ -81,6 +91,9 @@ macro_rules! instantiate_noaad {
     (V = $v:ty) => {
         $crate::h!(local_aad_refused_, local_aad_refused::<$v>());
         $crate::h!(public_aad_refused_, public_aad_refused::<$v>());
+    };
+    (V = $v:ty, LOCAL_ONLY) => {
+        $crate::h!(local_aad_refused_, local_aad_refused::<$v>());
     };
 }
 
